@@ -14,6 +14,10 @@ CLAIMED = {
         'for all 29 languages / 3892 rows exhaustively. Proof is the right level: the domain is a finite table and the theorem covers every row.',
    ref='§5 C08', technique='Lean 4 proof by kernel evaluation over regenerated tables + correspondence of C look-ups',
    note=TB + ' Known finding: two Wireless-Village extension tokens alias one name (listed in known_findings.json; theorem ext_tables_dec_enc_partial excludes exactly those rows).'),
+ 'C14': dict(
+   text='Theorem schedule_independence for an abstract machine with read-only shared state and per-thread local state (any number of threads, any programs, any two complete interleavings: every thread sees exactly its sequential outputs), instantiated for the library through structural premises proved by kernel evaluation over the symbol table regenerated from the current build: no writable global/static object or section, no external symbol that POSIX allows to be non-reentrant or that mutates process state. Partial: a C-level data race is not expressible in the model; ThreadSanitizer runs of 2-16 threads compared with sequential runs are validation and counter-example search, not proof.',
+   ref='§5 C14', technique='Lean 4 proof (induction over schedules) + decide over regenerated symbol dump; TSan differential run as validation',
+   note=TB + ' Additional trusted: nm/readelf output of the plain gcc build; the committed POSIX.1-2017 lists in Model/Posix.lean; Expat treated as per-parser-object API. Sequential expected outputs are the implementation\'s own single-thread results.'),
 }
 
 PENDING_REASON = 'check not built yet in this session (framework under construction; see DESIGN.md §9 staging)'
